@@ -165,8 +165,12 @@ def _pair(rng, nq):
 
 
 def gen_tk_spec(rng, max_q=5, max_b=2, max_gates=7, kinds=None):
-    nq = rng.choice([1, 2, 2, 3, 3, 4, 4, 5][:max_q + 3])
-    nb = rng.randint(0, max_b if nq <= 3 else 1)      # mixed evaluation costs 4**nq * 2**nb
+    nq = rng.choice([1, 2, 2, 3, 3, 3, 4, 4])
+    if max_q >= 5 and rng.random() < 0.05:
+        nq = 5
+    # the imported circuit keeps all units alive: its mixed evaluation costs ~ 4**nq * 2**nb per box
+    nb = rng.randint(0, max_b) if nq <= 3 else (rng.randint(0, 1) if nq == 4 else 0)
+    max_gates = max_gates if nq <= 3 else (5 if nq == 4 else 3)
     kinds = kinds or ["H", "S", "T", "X", "Y", "Z", "Rx", "Rz", "CX", "CZ", "CRz", "Measure", "Measure"]
     gates = [[rng.choice(["X", "H", "X"]), q] for q in range(nq) if rng.random() < 0.6]   # break symmetry
     for _ in range(rng.randint(1, max_gates)):
@@ -213,8 +217,9 @@ class SimBackend:
     from the explicit `plan` (drawn by PRNG_peer in the driver and recorded in
     the op), so a replay needs no PRNG."""
 
-    def __init__(self, plan):
+    def __init__(self, plan, cache=None):
         self.plan = plan
+        self.cache = cache            # results kept by the peer across calls (a caching backend)
         self.now = 0.0
         self.seq = 0
         self.calls = 0
@@ -255,6 +260,19 @@ class SimBackend:
         if job["done_at"] > self.now:
             self.now = job["done_at"]          # the client blocks: clock jumps to completion
         c, n_shots = job["circuit"], job["n_shots"] or 1
+        key = None
+        if self.cache is not None and self.plan.get("cache_results"):
+            key = (tuple(str(cmd) for cmd in c.get_commands()), c.n_qubits, len(c.bits), n_shots,
+                   self.plan.get("rep"), bool(self.plan.get("int_counts")))
+            if key in self.cache:
+                self.stats["F4_cached_result_object_served_again"] += 1
+                return self.cache[key]
+        result = self._fresh_result(job, c, n_shots)
+        if key is not None:
+            self.cache[key] = result
+        return result
+
+    def _fresh_result(self, job, c, n_shots):
         P = simulate(c)
         nb = len(c.bits)
         k = job["seq"]
